@@ -9,7 +9,7 @@ rsync -a --exclude .git --exclude __pycache__ /repo/ "$work/repo/"
 ( cd "$work/repo" && git init -q . 2>/dev/null; patch -p1 -s < "$patch" ) || { echo "patch failed"; exit 2; }
 rc=0
 for c in "$@"; do
-  VERIF_REPO="$work/repo" VERIF_OUT="$work/out" timeout "${MUT_TIMEOUT:-1200}" /verif/check "$c" --tier "${MUT_TIER:-quick}" > "$work/log" 2>&1
+  VERIF_REPO="$work/repo" VERIF_OUT="$work/out" timeout "${MUT_TIMEOUT:-1200}" "$(dirname "$(realpath "$0")")/../check" "$c" --tier "${MUT_TIER:-quick}" > "$work/log" 2>&1
   r=$?
   echo "== $c exit=$r $(grep -c '^VIOLATION' "$work/log") violation(s)"
   grep -A2 '^VIOLATION\|HARNESS' "$work/log" | cut -c1-400 | head -${MUT_LINES:-12}
